@@ -155,6 +155,13 @@ def check(case):
                     c2 = interp.run_dask(p2)[out_id]
                     got = plans.execute(c2.optimize().expr)[0] if hasattr(c2, "expr") else c2
                 except Exception as e:
+                    from .c02 import is_refusal
+
+                    if is_refusal(e):
+                        # a documented refusal (e.g. ffill over an all-NaN partition): the uncut query only avoids it because the
+                        # optimizer prunes the offending column; materializing the intermediate value has to compute it
+                        classes.append("cut_refused")
+                        continue
                     failures.append(Failure("cut-raises", f"{evals_label}: {type(e).__name__}: {e} (the uncut query computes)", exc=e, extra={"cut": [vid, how]}).record())
                     continue
                 classes.append(f"cut:{how}:{kind}")
